@@ -69,6 +69,7 @@ class Sig:
         self.pname = z3.Function("pname", IntS, Val)
         self.unm = z3.Function("unm", IntS, Val)          # unmarshaller(annotation of parameter j)
         self.idx = z3.Function("idx", Val, IntS)          # ghost: index of the parameter named k
+        self.unann = z3.Function("unannotated", IntS, BoolS)   # parameter j has no annotation
         vpi = z3.If(self.vp, 1, 0)
         vki = z3.If(self.vk, 1, 0)
         self.P = self.nPO + self.nPK
@@ -244,6 +245,10 @@ def binder_obligations(chk, I, flags, clsname, restrict_accept=True, tag=""):
                 chk.add(Ob(func, f"no-internal-raise[{rowname}]", pid, pc, goal, meta))
             if not obls:   # keep the clause set independent of the body's shape
                 chk.add(Ob(func, f"no-internal-raise[{rowname}]", pid, hy, z3.BoolVal(True), dict(meta, trivial=True)))
+        if out.kind == "unsupported":
+            for cl in (("len", "pos", "keys", "kw") if restrict_accept else ("rejected-shape",)):
+                chk.add(Ob(func, f"{cl}[{rowname}]", pid, hy, z3.BoolVal(False), dict(meta, engine=out.value)))
+            continue
         if out.kind == "raise":
             # accepted call: the binder itself must not raise -> every routing clause fails on this path
             internal = isinstance(out.exc.exc_cls, type)
@@ -341,16 +346,20 @@ def get_binding_obligations(chk, I):
                 if name == "annotation":
                     return _Ann(obj.j)
                 if name in ("POSITIONAL_ONLY", "VAR_KEYWORD", "VAR_POSITIONAL", "KEYWORD_ONLY",
-                            "POSITIONAL_OR_KEYWORD"):
+                            "POSITIONAL_OR_KEYWORD", "empty"):
                     return getattr(_inspect.Parameter, name)
+                if name == "name":
+                    return SV(sig.pname(obj.j))
             return _MISSING
         return hook
 
     class _Ann:
+        host_symbolic = True
+
         def __init__(self, j):
             self.j = j
     for nm in ("kind", "annotation", "POSITIONAL_ONLY", "VAR_KEYWORD", "VAR_POSITIONAL", "KEYWORD_ONLY",
-               "POSITIONAL_OR_KEYWORD"):
+               "POSITIONAL_OR_KEYWORD", "empty", "name"):
         I2.attr_hooks[nm] = getattr_hook_factory(nm)
 
     def equal_hook(I2, path, a, b, identity):
@@ -361,6 +370,11 @@ def get_binding_obligations(chk, I):
                 if other is real:
                     return SBool(kv.t == code)
             raise Unsupported("kind compared with non-kind")
+        if isinstance(a, _Ann) or isinstance(b, _Ann):
+            an, other = (a, b) if isinstance(a, _Ann) else (b, a)
+            if other is _inspect.Parameter.empty:
+                return SBool(sigbox["sig"].unann(an.j))
+            raise Unsupported("annotation compared with something other than Parameter.empty")
         return _MISSING
     I2.hooks["equal"] = equal_hook
 
@@ -502,8 +516,12 @@ def get_binding_obligations(chk, I):
             chk.add(Ob(func, nm, pid, pc, goal))
         if out.kind == "end":
             continue
-        if out.kind == "raise":
-            chk.add(Ob(func, "returns", pid, path.hyps, z3.BoolVal(False), {"exc": str(out.exc.exc_cls)}))
+        if out.kind in ("raise", "unsupported"):
+            why = {"exc": str(out.exc.exc_cls)} if out.kind == "raise" else {"engine": out.value}
+            for cl in ("loop-preserve:params", "exit::binding-domain", "exit::binding-values",
+                       "exit::flags-select-row", "exit::class-is-matrix-row", "exit::startpos", "exit::varpos",
+                       "exit::varkwd"):
+                chk.add(Ob(func, cl, pid, path.hyps, z3.BoolVal(False), why))
             continue
         tag, clsname, flags, kw = out.value
         hy = path.hyps
